@@ -153,6 +153,7 @@ class TypedGen(Gen):
         self.assign = [t for t, _p, k in G["bin"] if k == "ASSIGN" or k.startswith("ASS_")]
         self.arith = [t for t, _p, k in G["bin"] if not (k == "ASSIGN" or k.startswith("ASS_"))]
         self.prekind = {t: k for t, _p, k in G["pre"]}
+        self.plain_assign = [t for t, _p, k in G["bin"] if k == "ASSIGN"]
 
     def lvalue(self, d):
         r = self.rng
@@ -213,6 +214,12 @@ class TypedGen(Gen):
             self.hit("quant")
             return "(quant %s %s int[0,3] %s)" % (r.choice(self.quants), r.choice("ijk"), self.tree(d - 1))
         self.hit("dot")
+        if r.random() < 0.35:
+            # what stands before `.` need not be a name: an assignment between records is itself a record (`(s = ss[i]).f`, `(s = ss[i]).in.h`)
+            self.hit("dot-of-assignment")
+            asg = self.plain_assign[0]
+            rec = "(bin %s (id s) (index (id ss) %s))" % (asg, self.tree(d - 1))
+            return "(dot %s %s)" % (r.choice(["f", "g"]), rec) if r.random() < 0.7 else "(dot h (dot in %s))" % rec
         return "(dot %s (id s))" % r.choice(["f", "g"])
 
 
